@@ -1038,10 +1038,11 @@ Theorem C02_cached_nocode_recoverable_delivers : forall E oti content toi max fi
 Proof. exact nocode_cached_recoverable_delivers. Qed.
 Print Assumptions C02_cached_nocode_recoverable_delivers.
 
-(* the empty object (transfer length 0; any FEC scheme, any content encoding): cache_replay_blocked lets the replay run
-   although the object has no block (D40); the first packet whose payload id parses - replayed from the cache, or
-   received after the entry - completes it: builder, open, complete, no write.  With no packet at all the object stays
-   Receiving with its writer open (C02_cached_examples). *)
+(* the empty object (transfer length 0; any FEC scheme, any content encoding): builder, open, complete, no write.
+   Since the D48 repair the attach itself completes it (before: the first packet whose payload id parses - replayed
+   from the cache, D40, or received after the entry), so the two premises on the packets (payload id parses, at
+   least one packet) are no longer needed: statement kept as it was, the stronger one is
+   C02_empty_object_delivers_d48 in the block D48 at the end of this file. *)
 Theorem C02_cached_empty_object_delivers : forall E fid files inst f toi max oti pre post,
   find (fun f => ff_toi f =? toi) files = Some f ->
   match ff_oti f with Some x => Some x | None => inst end = Some oti ->
@@ -1179,7 +1180,7 @@ Example C02_cached_examples :
    /\ cache_fits 1000 0 ex_pkts = true)
   /\ (summary 7 (receive_cached env_ok 1 ex0_files None 7 1000 [src_pkt 7 0 0 false []] []) = (Completed, [CallOpen true; CallComplete])
       /\ summary 7 (receive_cached env_ok 1 ex0_files None 7 1000 [] [src_pkt 7 0 0 true []]) = (Completed, [CallOpen true; CallComplete])
-      /\ summary 7 (receive_cached env_ok 1 ex0_files None 7 1000 [] []) = (Receiving, [CallOpen true]))
+      /\ summary 7 (receive_cached env_ok 1 ex0_files None 7 1000 [] []) = (Completed, [CallOpen true; CallComplete]))
   /\ (sess (tx_parse false None) (tx_cfg true false) (firstn 3 ex_pkts ++ tx_fdt None :: skipn 3 ex_pkts)
       = ([POk; POk; POk; POk; POk; POk], [], [7], [], delivered_log)
       /\ sess (tx_parse false None) (tx_cfg true false) (ex_pkts ++ [tx_fdt None])
@@ -1595,3 +1596,55 @@ Example C02_cenc_clean_channel_example :
      = (Completed, [CallOpen true; CallWrite [1; 2] true; CallWrite [3; 4; 5] true; CallComplete]).
 Proof. exact cenc_clean_channel_example. Qed.
 (* ===== end block: C02Cenc ===== *)
+
+From FluteV Require Import Proofs.C02EmptyD48.
+(* ===== block: D48 ===== *)
+(* D48 (ObjectReceiver::attach_fdt): an empty object (transfer length 0) has no block to wait for - the packet that
+   created the receiver was the whole object and may have come before the FDT.  attach_fdt now completes such an
+   object as soon as it has its OTI and its writer.  Before the repair an empty object whose lone packet (FTI in-band)
+   had arrived before the FDT was opened by the FDT and never completed (found on real sender sessions whose FDT is
+   repeated after the last transfer).
+   Object level: a fresh receiver of TOI toi <> 0 is pushed ONE packet p that carries EXT_FTI (oti, transfer length
+   0) and a payload id that parses under oti's scheme (any flags, any EXT_CENC): the packet is consumed, nothing is
+   called (no FDT entry, hence no writer: D37).  The FDT entry (any transfer length in it: the in-band one stands)
+   is then attached: builder, open, complete, no write; packets that follow change nothing. *)
+Theorem C02_empty_object_before_fdt_delivers : forall E fid files inst f toi max oti p post,
+  find (fun f => ff_toi f =? toi) files = Some f ->
+  toi <> 0 -> a_toi p = toi -> writer_accepts E toi ->
+  a_oti p = Some (oti, 0) -> a_pid_with (ro_fec oti) p <> None ->
+  (let (o1, c1) := or_push E p (or_new toi max) ctx0 in
+   r_state o1 = Receiving /\ r_writer o1 = None /\ c_log c1 = [])
+  /\ (let (o, c) := receive_cached E fid files inst toi max [p] post in
+      r_state o = Completed /\ r_writer o = Some ((toi, 0%nat), WClosed)
+      /\ c_log c = [EvBuilder toi WStore; EvOpen (toi, 0%nat) true; EvComplete (toi, 0%nat)]).
+Proof.
+  intros E fid files inst f toi max oti p post H1 H2 H3 [A1 A2] H4 H5.
+  exact (empty_object_before_fdt_delivers E fid files inst f toi max oti p H1 H2 H3 A1 A2 H4 H5 post).
+Qed.
+Print Assumptions C02_empty_object_before_fdt_delivers.
+
+(* the OTI only in the FDT (packets without EXT_FTI are cached): C02_cached_empty_object_delivers without its two
+   premises on the packets - none has to parse, none has to exist *)
+Theorem C02_empty_object_delivers_d48 : forall E fid files inst f toi max oti pre post,
+  find (fun f => ff_toi f =? toi) files = Some f ->
+  match ff_oti f with Some x => Some x | None => inst end = Some oti ->
+  ff_tlen f = 0 -> toi <> 0 -> writer_accepts E toi ->
+  Forall cacheable pre -> cache_fits max 0 pre = true ->
+  let (o, c) := receive_cached E fid files inst toi max pre post in
+  r_state o = Completed /\ c_log c = [EvBuilder toi WStore; EvOpen (toi, 0%nat) true; EvComplete (toi, 0%nat)].
+Proof.
+  intros E fid files inst f toi max oti pre post H1 H2 H3 H4 [A1 A2].
+  exact (empty_cached_delivers_d48 E fid files inst f toi max oti H1 H2 H3 H4 A1 A2 pre post).
+Qed.
+Print Assumptions C02_empty_object_delivers_d48.
+
+(* TOI 7, 0 bytes; the packet: EXT_FTI (ex_oti, 0), payload id (0,0), no payload, close-object flag.  Before the
+   FDT entry: Receiving, no call; with the entry: open, complete; a repeated packet changes nothing.  (Before the
+   repair the second line was (Receiving, [CallOpen true]): only a further packet of the object completed it.) *)
+Example C02_empty_object_before_fdt_example :
+  summary 7 (C02Full.run env_ok [ex0_pkt_fti] (or_new 7 1000, ctx0)) = (Receiving, [])
+  /\ summary 7 (receive_cached env_ok 1 ex0_files None 7 1000 [ex0_pkt_fti] []) = (Completed, [CallOpen true; CallComplete])
+  /\ summary 7 (receive_cached env_ok 1 ex0_files None 7 1000 [ex0_pkt_fti] [ex0_pkt_fti])
+     = (Completed, [CallOpen true; CallComplete]).
+Proof. exact ex_empty_before_fdt. Qed.
+(* ===== end block: D48 ===== *)
